@@ -265,8 +265,12 @@ example : (relayProg 2).run [.ok, .ok, .ok, .ok, .ok, .ok, .fail] {}
 example : (srflxProg).run [.ok, .ok, .ok, .ok, .dup] {} = some { slots := [.dupClosed], misuse := false } := by decide
 /-- srflx-mapped unit with two externals: the first maps to a disabled network type (C18-G6 fix: its socket
 is released, the loop continues), the second is listened for, passes and is started -/
-example : (srflxMappedProg 2).run [.ok, .ok, .ok, .ok, .fail, .ok, .ok, .ok, .ok, .ok] {}
+example : (srflxMappedProg 2).run [.ok, .ok, .ok, .ok, .ok, .fail, .ok, .ok, .ok, .ok, .ok, .ok] {}
     = some { slots := [.released, .owned 1], misuse := false } := by decide
+/-- three externals: the first is site-local (C18-G7 fix: `supported6` fails, socket released), the second
+link-local (location filter, socket released), the third is started -/
+example : (srflxMappedProg 3).run [.ok, .ok, .ok, .fail, .ok, .fail, .ok, .ok, .ok, .ok, .ok, .ok] {}
+    = some { slots := [.released, .released, .owned 2], misuse := false } := by decide
 /-- the monitor does reject an observation: a socket of an ended generation with nothing in flight -/
 example : (IceSpec.C09.check {} "stunreply" "ok"
     { gen := 1, led := [((.sock, some 0), 1)], opens := 1, closes := 0 }).1
